@@ -48,14 +48,22 @@ func NewTernarySampler(prng sampling.PRNG, baseRing *Ring, X Ternary, montgomery
 // AtLevel returns an instance of the target TernarySampler to sample at the given level.
 // The returned sampler cannot be used concurrently to the original sampler.
 func (ts *TernarySampler) AtLevel(level int) Sampler {
-	return &TernarySampler{
+	tsLvl := &TernarySampler{
 		baseSampler:  ts.baseSampler.AtLevel(level),
 		matrixProba:  ts.matrixProba,
 		matrixValues: ts.matrixValues,
 		invDensity:   ts.invDensity,
 		hw:           ts.hw,
-		sample:       ts.sample,
 	}
+
+	// The sampling method must be bound to the new instance, else it samples at the level of the receiver.
+	if ts.hw != 0 {
+		tsLvl.sample = tsLvl.sampleSparse
+	} else {
+		tsLvl.sample = tsLvl.sampleProba
+	}
+
+	return tsLvl
 }
 
 // Read samples a polynomial into pol.
